@@ -118,6 +118,7 @@ type c02Sess struct {
 	ctx    *allocator.Context
 	ipcp   bool
 	told4  net.IP
+	duid   bool // the session recorded the client's DUID (a SOLICIT was seen)
 	bound4 net.IP
 	bound6 net.IP
 	boundP *net.IPNet
@@ -512,6 +513,9 @@ func (w *c02World) op(f []string) string {
 			return "skip"
 		}
 		tag := strings.ToLower(f[0])
+		if f[0] == "IS" {
+			s.duid = true // handleDHCPv6Solicit records the DUID, handleDHCPv6Request does not
+		}
 		if s.ctx == nil {
 			s.ctx = allocator.NewContext(s.id, s.mac, uint16(100+s.grp), 0, c02VRF(f[2]), "", w.grpP4[s.grp], w.grpP6[s.grp],
 				c02Attrs(f[2], "-", f[3], f[4], "-", f[5], f[6]))
@@ -541,27 +545,55 @@ func (w *c02World) op(f []string) string {
 		if resp.Raw[0] == 7 {
 			kind = "rep"
 		}
-		// ipoe.handleDHCPv6Reply binds what the REPLY carries; at function level the ADVERTISE is treated alike
-		s.bound6, s.boundP = r6.IANAAddress, r6.PDPrefix
+		// ipoe.handleDHCPv6Reply binds what the REPLY carries (an ADVERTISE binds nothing)
+		if kind == "rep" {
+			s.bound6, s.boundP = r6.IANAAddress, r6.PDPrefix
+		}
 		return tag + " " + kind + ":" + a6 + ":" + pd + tail
-	case "IR", "IT": // handleRelease / cleanupSessions (IR) and handleSubscriberTerminate (IT) release sequences
+	case "IR", "IT", "IL":
+		// release sequences of handleRelease / cleanupSessions (IR), handleSubscriberTerminate (IT) and
+		// handleDHCPv6Release (IL); a unified session survives the release of one family while the other is bound
 		if s.proto != "I" || s.dead {
 			return "skip"
 		}
-		if s.bound4 != nil {
-			reg.ReleaseIP(s.bound4)
-		}
-		if f[0] == "IR" {
+		duid := append([]byte{0, 3, 0, 1}, s.mac...)
+		v6bound := s.bound6 != nil || s.boundP != nil
+		switch f[0] {
+		case "IR":
+			if s.bound4 != nil {
+				reg.ReleaseIP(s.bound4)
+			}
 			w.prov.ReleaseLease(s.mac.String())
-		}
-		if s.bound6 != nil {
-			reg.ReleaseIANAByIP(s.bound6)
-		}
-		if s.boundP != nil {
-			reg.ReleasePDByPrefix(s.boundP)
-		}
-		if f[0] == "IR" {
-			w.prov6.ReleaseLease(append([]byte{0, 3, 0, 1}, s.mac...))
+			s.bound4, s.told4 = nil, nil
+			if v6bound {
+				return "ir" // IPv6 stays bound: the session lives on
+			}
+			if s.duid {
+				w.prov6.ReleaseLease(duid)
+			}
+		case "IL":
+			w.prov6.ReleaseLease(duid) // the provider handles the RELEASE message
+			if s.bound6 != nil {
+				reg.ReleaseIANAByIP(s.bound6)
+			}
+			if s.boundP != nil {
+				reg.ReleasePDByPrefix(s.boundP)
+			}
+			s.bound6, s.boundP = nil, nil
+			if s.bound4 != nil {
+				return "il" // IPv4 stays bound: the session lives on
+			}
+			w.prov.ReleaseLease(s.mac.String())
+		case "IT":
+			if s.bound4 != nil {
+				reg.ReleaseIP(s.bound4)
+			}
+			if s.bound6 != nil {
+				reg.ReleaseIANAByIP(s.bound6)
+			}
+			if s.boundP != nil {
+				reg.ReleasePDByPrefix(s.boundP)
+			}
 		}
 		s.dead = true
 		return strings.ToLower(f[0])
